@@ -1357,14 +1357,14 @@ def inline_helpers(facts_json, anchors=None):
     for f in facts_json["fns"]:
         by_path.setdefault(f["path"], f)
     anchors = set(anchors)
-    # a private anchor that kept its name but changed its signature (a flag parameter dropped, ...) is no longer the
+    # a private anchor that kept its name but changed its parameter list (a flag parameter dropped, ...) is no longer the
     # function the rules were written for: treat it like any other private helper (spliced into its callers; the rules
     # then work on the flat views, as they do when the helper is absent)
     _sigs = load_private_signatures()
     for f in facts_json["fns"]:
         sg = _sigs.get(f["path"])
         if sg is not None and f["path"] in anchors and f.get("vis") != "pub":
-            if [i.get("s") for i in (f.get("inputs") or [])] != sg[0] or ((f.get("output") or {}).get("s")) != sg[1]:
+            if [i.get("s") for i in (f.get("inputs") or [])] != sg[0]:  # the parameter list; another container for the result keeps the role
                 anchors.discard(f["path"])
                 facts_json.setdefault("resigned_anchors", []).append(f["path"])
     restore_renamed_anchors(facts_json, anchors)
